@@ -160,6 +160,9 @@ func (g *G) nodeOfKind(k spec.Kind, depth int) *spec.Node {
 		if n.ViaMerge {
 			g.mergeCuts(n)
 		}
+		if g.O.StructTests && g.pct(8) {
+			n.Derive = g.R.Range(1, 4)
+		}
 	case spec.Ptr:
 		n.Elem = g.node(depth + 1)
 		for n.Elem.Kind == spec.Pre || (g.O.NoPtrPtr && n.Elem.Kind == spec.Ptr) {
